@@ -22,18 +22,27 @@ def _findings():
 
 _codes, _text = _findings()
 
+
+def _table_json():
+    # same rule as tools/gen_accesses.py:table_json_path
+    import hashlib
+    repo = os.path.abspath(os.environ.get('VERIF_REPO', '/repo'))
+    if repo == '/repo':
+        return os.path.join(_verif, 'work', 'accesses', 'accesses.json')
+    return os.path.join(_verif, 'work', 'accesses', 'accesses-%s.json' % hashlib.sha256(repo.encode()).hexdigest()[:10])
+
 SPEC = dict(
     claimed=True,
     title='Concurrent activities are free of data races',
     props_file='Props/C20.v', props_mod='Props.C20',
-    proof_files=['Proofs/Races.v', 'Drv/Race.v'],
+    proof_files=['Proofs/Races.v', 'Proofs/RacesTable.v', 'Drv/Race.v'],
     tie_vo=['gen/Accesses.vo'],
     # race=True: the driver must run in a binary built by core.build_harness(run_dir, race=True, drivers=['race']);
     # in a plain binary it still runs but can only observe "fatal error: concurrent map ..." aborts of the stress child.
     drivers=[dict(name='race', drv_mod='Drv.Race', drv_file='Drv/Race.v', shard=400, race=True,
                   args={'quick': ['rounds=4', 'ms=2500'], 'thorough': ['rounds=12', 'ms=6000']},
                   timeout={'quick': 600, 'thorough': 3000},
-                  env={'VERIF_ACCESSES': os.path.join(_verif, 'work', 'accesses', 'accesses.json')})],
+                  env={'VERIF_ACCESSES': _table_json()})],
     rule='one case per candidate group = (memory cell, unordered pair of goroutine kinds) for which the regenerated access table '
          'contains a pair of accesses with conflicting modes (exhaustive over the table: bound = the table); the static verdict is '
          'the verified classifier evaluated inside Coq, the dynamic observation is the number of Go race-detector reports mapped to '
